@@ -84,13 +84,16 @@ class Project:
         return [{"op": "write", "path": "config.toml", "content": "text:" + text}], gen.flag_args(over) + ["config.toml"]
 
 
-def _fault_plan(r, enabled):
+def _fault_plan(r, enabled, bitmap=False):
     plan = {}
     if r.random() < 0.35 or not enabled:
         return plan
     kind = r.choice(enabled)
     if kind == "step":
         fs = []
+        if r.random() < (0.4 if bitmap else 0.05):
+            fs.append({"pick": r.randint(0, 1 << 30), "kind": "inner_fail", "rules": ["pngquant"], "code": r.choice([1, 2, 3, 15, 35, 139]),
+                       "mode": r.choice(["no_output", "no_output", "partial"])})
         for _ in range(r.choice([1, 1, 2])):
             fs.append(
                 {
@@ -223,7 +226,7 @@ def gen_history(seed, idx, tier, only_step_faults=False):
     for _ in range(n_ops_total):
         slots[r.randint(1, n_inv) if n_inv else 0].append(1)
     for i in range(n_inv):
-        plan = _fault_plan(rf, enabled)
+        plan = _fault_plan(rf, enabled, p.fmt in gen.BITMAP)
         if plan.get("kill_after") is None and rf.random() < 0.08 and p.sources and not only_step_faults:
             s = rf.choice(sorted(p.sources))
             c = gen.content(rf, small=p.fmt in gen.BITMAP)
@@ -382,7 +385,8 @@ def judge(case, results):
     final, ref = lab.get("final"), lab.get("ref")
     # (2) failure is loud + monitors, every invocation
     for r in invs:
-        fired = bool(r.get("driver_fault_fired")) or bool(r.get("killed"))
+        fired = bool(r.get("driver_fault_fired")) or bool(r.get("killed")) or any(
+            s.get("fired") for n in r.get("ninja", []) for s in n["steps"] if "out" in s)
         step_failed = False
         for n in r.get("ninja", []):
             if n["rc"] != 0:
